@@ -1324,3 +1324,157 @@ example : HasGradientAt
   intro h
   have := congrFun (congrArg WSp.val h) 0
   simp [WSp.val_of, WSp.val_zero] at this
+
+/-! ### ROUND 5: expression trees over the new leaves (`FnX`) -/
+section ext
+variable {E : Type} [NormedAddCommGroup E] [InnerProductSpace ℝ E] [CompleteSpace E]
+
+namespace OdlModel.C09
+/-- Side conditions for a tree over the new leaves: `WF` for embedded `Fn` trees, the leaf's coded
+gradient is a gradient at the point the evaluation visits. -/
+def WFX (o : VecOps E ℝ) (lo : LeafOps E ℝ) : FnX E ℝ → E → Prop
+  | .base t, x => WF o t x
+  | .kl g, x => HasGradientAt (lo.klVal g) (lo.klGrad g x) x
+  | .klcc g, x => HasGradientAt (lo.klccVal g) (lo.klccGrad g x) x
+  | .l2, x => HasGradientAt lo.l2Val (lo.l2Grad x) x
+  | .lscal _ f, x => WFX o lo f x
+  | .rscal f s, x => WFX o lo f (o.smul s x)
+  | .sum f g, x => WFX o lo f x ∧ WFX o lo g x
+  | .ssum f _, x => WFX o lo f x
+  | .trans f t, x => WFX o lo f (o.sub x t)
+  | .qp f _ _ _, x => WFX o lo f x
+end OdlModel.C09
+
+/-- **`grad_sound` for trees OVER the new leaves** (`FnX`: KL, KL-conjugate, L2-norm leaves and whole
+`Fn` trees under left/right scalar multiplication, sum, scalar sum, translation, quadratic
+perturbation; all depths, every real Hilbert space): under `WFX` the coded gradient — built node
+by node exactly as `Fn.grad` — is the gradient of the value. The leaf gradients are hypotheses here
+and DISCHARGED on the weighted spaces by `grad_sound_ext_weighted`. -/
+theorem C09.grad_sound_ext (μ : E → E → E) (cv : Builtin ℝ → E → ℝ) (cd : Builtin ℝ → E → Bool)
+    (cg : Builtin ℝ → E → E) (lo : LeafOps E ℝ) (t : FnX E ℝ) (x : E)
+    (h : WFX (eOps μ cv cd cg) lo t x) :
+    HasGradientAt (fun z => t.value (eOps μ cv cd cg) lo z) (t.grad (eOps μ cv cd cg) lo x) x := by
+  induction t generalizing x with
+  | base t => exact C09.grad_sound μ cv cd cg t x h
+  | kl g => exact h
+  | klcc g => exact h
+  | l2 => exact h
+  | lscal s f ih =>
+      have := (ih x h).hasFDerivAt.const_mul s
+      refine C09.hasGradientAt_of_fderiv this ?_
+      intro d; simp [FnX.grad, eOps, inner_smul_left]
+  | rscal f s ih =>
+      have h1 := (ih _ h).hasFDerivAt
+      have h2 : HasFDerivAt (fun z : E => s • z) (s • ContinuousLinearMap.id ℝ E) x :=
+        (hasFDerivAt_id x).const_smul s
+      have := HasFDerivAt.comp x h1 h2
+      refine C09.hasGradientAt_of_fderiv this ?_
+      intro d; simp [FnX.grad, eOps, inner_smul_left, inner_smul_right]
+  | sum f g ihf ihg =>
+      have := (ihf x h.1).hasFDerivAt.add (ihg x h.2).hasFDerivAt
+      refine C09.hasGradientAt_of_fderiv this ?_
+      intro d; simp [FnX.grad, eOps, inner_add_left]
+  | ssum f c ih =>
+      have := (ih x h).hasFDerivAt.add_const c
+      refine C09.hasGradientAt_of_fderiv this ?_
+      intro d; simp [FnX.grad, eOps]
+  | trans f t ih =>
+      have h1 := (ih _ h).hasFDerivAt
+      have h2 : HasFDerivAt (fun z : E => z - t) (ContinuousLinearMap.id ℝ E) x :=
+        (hasFDerivAt_id x).sub_const t
+      have := HasFDerivAt.comp x h1 h2
+      refine C09.hasGradientAt_of_fderiv this ?_
+      intro d; simp [FnX.grad, eOps]
+  | qp f a u c ih =>
+      have h1 := (ih x h).hasFDerivAt
+      have h2 := (HasFDerivAt.inner ℝ (hasFDerivAt_id x) (hasFDerivAt_id x)).const_mul a
+      have h3 := HasFDerivAt.inner ℝ (hasFDerivAt_id x) (hasFDerivAt_const u x)
+      have := ((h1.add h2).add h3).add_const c
+      refine C09.hasGradientAt_of_fderiv this ?_
+      intro d
+      simp [FnX.grad, eOps, two, fderivInnerCLM_apply, inner_add_left, inner_smul_left,
+        real_inner_comm]
+      ring
+end ext
+
+section extw
+variable {n : ℕ} (w : Fin n → ℝ) [hw : Fact (∀ i, 0 < w i)]
+
+namespace OdlModel.C09
+/-- The new leaves on `WSp w`, gradients computed by THE LIST FUNCTIONS THE DRIVER EXECUTES
+(`sqrt := Real.sqrt`), values by the documented formulas. -/
+noncomputable def wLeafOps : LeafOps (WSp w) ℝ where
+  klVal := fun g z => ∑ i, w i * klVal1 (g.val i) (z.val i)
+  klGrad := fun g x => WSp.of (ofL (klGrad (List.ofFn g.val) (List.ofFn x.val)))
+  klOk := fun x => klGradFinite (List.ofFn x.val)
+  klccVal := fun g z => ∑ i, w i * klccVal1 (g.val i) (z.val i)
+  klccGrad := fun g x => WSp.of (ofL (klccGrad (List.ofFn g.val) (List.ofFn x.val)))
+  klccOk := fun x => klccGradFinite (List.ofFn x.val)
+  l2Val := fun z => l2Val Real.sqrt (List.ofFn w) (List.ofFn z.val)
+  l2Grad := fun x => WSp.of (ofL (l2Grad Real.sqrt (List.ofFn w) (List.ofFn x.val)))
+
+/-- Side conditions on the INPUT only. -/
+def WFXw {n : ℕ} (w : Fin n → ℝ) [Fact (∀ i, 0 < w i)] : FnX (WSp w) ℝ → WSp w → Prop
+  | .base t, x => WFw w t x
+  | .kl _, x => klDom (List.ofFn x.val) = true
+  | .klcc _, x => klccDom (List.ofFn x.val) = true
+  | .l2, x => x ≠ 0
+  | .lscal _ f, x => WFXw w f x
+  | .rscal f s, x => WFXw w f ((wOps w).smul s x)
+  | .sum f g, x => WFXw w f x ∧ WFXw w g x
+  | .ssum f _, x => WFXw w f x
+  | .trans f t, x => WFXw w f ((wOps w).sub x t)
+  | .qp f _ _ _, x => WFXw w f x
+end OdlModel.C09
+
+/-- On `WSp w` the leaf hypotheses of `WFX` follow from conditions on the input alone
+(`kl_grad_sound_weighted`, `klcc_grad_sound_weighted`, `l2norm_grad_sound_weighted`, `wfw_wf`). -/
+theorem C09.wfxw_wfx (t : FnX (WSp w) ℝ) (x : WSp w) (h : WFXw w t x) :
+    WFX (wOps w) (wLeafOps w) t x := by
+  induction t generalizing x with
+  | base t => exact C09.wfw_wf w t x h
+  | kl g => exact C09.kl_grad_sound_weighted w g.val x h
+  | klcc g => exact C09.klcc_grad_sound_weighted w g.val x h
+  | l2 => exact C09.l2norm_grad_sound_weighted w x h
+  | lscal s f ih => exact ih x h
+  | rscal f s ih => exact ih _ h
+  | sum f g ihf ihg => exact ⟨ihf x h.1, ihg x h.2⟩
+  | ssum f c ih => exact ih x h
+  | trans f t ih => exact ih _ h
+  | qp f a u c ih => exact ih x h
+
+/-- **Trees over KullbackLeibler / KullbackLeiblerConvexConj / L2Norm leaves on the weighted spaces,
+WITHOUT hand-supplied leaf hypotheses**: for all `n`, all weights `w > 0`, every tree of `FnX` whose
+leaf gradients are computed by the executed list functions (driver ops `xgrad` / `xderiv`, compared
+with `f.gradient(x)` / `f.derivative(x)(d)` of the live object whenever `wire` meets a class outside
+`Fn`), at every point where the EXECUTED domain tests hold at the visited leaf arguments (`klDom`,
+`klccDom`, `x ≠ 0` for the L2 norm, `WFw` for embedded `Fn` trees), the coded gradient is the gradient
+of the documented value and `derivative(x)(d)` is the Fréchet derivative applied to `d`. (`Fn` itself
+is shared with C08 and could not be extended without breaking its exhaustive inductions; `FnX` embeds
+every `Fn` tree as a leaf instead. A new leaf UNDER an `Fn`-only node — product, quotient, composition,
+vector multiplication, Bregman — is still outside.) -/
+theorem C09.grad_sound_ext_weighted (t : FnX (WSp w) ℝ) (x d : WSp w) (h : WFXw w t x) :
+    HasGradientAt (fun z => t.value (wOps w) (wLeafOps w) z) (t.grad (wOps w) (wLeafOps w) x) x ∧
+      fderiv ℝ (fun z => t.value (wOps w) (wLeafOps w) z) x d = t.deriv (wOps w) (wLeafOps w) x d := by
+  have hg : HasGradientAt (fun z => t.value (wOps w) (wLeafOps w) z)
+      (t.grad (wOps w) (wLeafOps w) x) x :=
+    C09.grad_sound_ext _ _ _ _ (wLeafOps w) t x (C09.wfxw_wfx w t x h)
+  refine ⟨hg, ?_⟩
+  rw [hg.fderiv_apply]
+  show ⟪t.grad (wOps w) (wLeafOps w) x, d⟫ = ⟪d, t.grad (wOps w) (wLeafOps w) x⟫
+  exact real_inner_comm _ _
+end extw
+
+/-- Non-vacuity: `2·KL_{(1,3/2)}(· − (−1, 0)) + ‖·‖₂ + ‖·‖₁` on two cells of volume 1/4 at `(1/2, 2)`. -/
+example : WFXw ![1 / 4, 1 / 4]
+    (FnX.sum (.lscal 2 (.trans (.kl (WSp.of ![1, 3 / 2])) (WSp.of ![-1, 0])))
+      (.sum .l2 (.base (.coord .l1)))) (WSp.of ![1 / 2, 2]) := by
+  refine ⟨?_, ?_, ?_⟩
+  · show klDom (List.ofFn ((WSp.of ![1 / 2, 2] : WSp ![1 / 4, 1 / 4]) - WSp.of ![-1, 0]).val) = true
+    simp [klDom, WSp.val_sub, WSp.val_of]
+    norm_num
+  · intro h
+    have := congrFun (congrArg WSp.val h) 0
+    simp [WSp.val_of, WSp.val_zero] at this
+  · intro i
+    fin_cases i <;> simp [WSp.val_of]
